@@ -40,6 +40,7 @@ static Case gen_case ()
 	c.seti ("upd", *rc::gen::element (1, 2, 3)) ;
 	c.seti ("seekback", *rangeOf<int> (0, 2) == 0) ;
 	c.seti ("rdwr", *rangeOf<int> (0, 3) == 0) ;
+	c.seti ("raw", *rangeOf<int> (0, 3) == 0) ;	// sample-granular encodings: the audio goes in through sf_write_raw
 	return c ;
 }
 
@@ -90,7 +91,15 @@ static Result run_case (const Case &c)
 
 	MemFile m ; std::vector<Snapshot> snaps ; int updates = 0, rdwr_reads = 0 ;
 	bool rdwr = c.geti ("rdwr") != 0 && is_granular (s.format) && !autohdr ;
-	std::string e = write_partitioned (m, s, t, src.p, N, Q, autohdr, &snaps, &updates, rdwr, &rdwr_reads) ;
+	// raw variant: the encoded bytes of the whole signal are taken from a file written through the typed calls first
+	std::vector<uint8_t> rawbytes ; int rawbw = 0 ;
+	if (c.geti ("raw", 0) && is_granular (s.format) && cd->bytes > 0 && N > 0)
+	{	MemFile pre ; std::vector<long long> one { N } ; std::string pe = write_partitioned (pre, s, t, src.p, N, one, false, nullptr) ;
+		SF_INFO pi ; MemFile pr ; pr.data = pre.data ; SNDFILE *ph = pe.empty () ? open_read_mem (pr, s, &pi) : nullptr ;
+		if (ph) { rawbw = cd->bytes * s.ch ; rawbytes.assign ((size_t) N * rawbw, 0) ; sf_count_t gb = sf_read_raw (ph, rawbytes.data (), (sf_count_t) rawbytes.size ()) ; sf_close (ph) ; if (gb != (sf_count_t) rawbytes.size ()) rawbw = 0 ; }
+	}
+	r.classes.push_back (std::string ("raw_writes:") + (rawbw ? "yes" : "no")) ;
+	std::string e = write_partitioned (m, s, t, src.p, N, Q, autohdr, &snaps, &updates, rdwr, &rdwr_reads, rawbw ? rawbytes.data () : nullptr, rawbw) ;
 	r.classes.push_back (std::string ("rdwr_read_before_update:") + (rdwr_reads ? "yes" : "no")) ;
 	if (!e.empty ()) return fail ("write_failed", e) ;
 	// decode of the finished file (reference for the prefixes)
